@@ -44,7 +44,10 @@ static void misc_case(const Pattern &p0) { hx::run_case("misc/"+p0.name,[&]() { 
     { M B(*Am); be::sort_rows(B); hx::require("sort_rows: rows sorted, structure well-formed", well_formed(B,true,true)); hx::prove_eq_vec("sort_rows: same matrix", flat(dense_of(B)), flat(a)); bool ex=true; for (size_t i=0;i<B.nrows;++i) for (ptrdiff_t k=B.ptr[i];k<B.ptr[i+1];++k) ex=ex&&hx::same_handle(B.val[k],A.at(i,B.col[k])); hx::require("sort_rows moves (col,val) pairs together", ex); }
     { M B(*Am); M C2(std::tie(p.n,A.ptr,A.col,A.val)); M D; D=B; M E(std::move(B)); bool ok=true; for (const M *X : {&C2,&D,&E}) { ok=ok&&X->nrows==(size_t)p.n&&X->ptr[p.n]==(ptrdiff_t)p.nnz(); if ((int)X->ncols==p.m || X==&C2) for (size_t k=0;k<p.nnz();++k) ok=ok&&X->col[k]==p.col[k]&&hx::same_handle(X->val[k],A.val[k]); } hx::require("CRS copy / tuple / assignment / move constructors reproduce structure and values exactly", ok); }
     if (p.n==p.m) { bool fulldiag=true; for (int i=0;i<p.n;++i) fulldiag=fulldiag&&p.has(i,i); if (fulldiag) { auto d=be::diagonal(*Am,false); std::vector<scalar> ref; for (int i=0;i<p.n;++i) ref.push_back(a[i][i]); hx::prove_eq_vec("diagonal", hx::to_vec(*d), ref);
-        for (int i=0;i<p.n;++i) hx::assume(hx::ne(a[i][i],scalar(0))); auto di=be::diagonal(*Am,true); std::vector<scalar> r2; for (int i=0;i<p.n;++i) r2.push_back(scalar(1)/a[i][i]); hx::prove_eq_vec("inverted diagonal", hx::to_vec(*di), r2); } } }); }
+        for (int i=0;i<p.n;++i) hx::assume(hx::ne(a[i][i],scalar(0))); auto di=be::diagonal(*Am,true); std::vector<scalar> r2; for (int i=0;i<p.n;++i) r2.push_back(scalar(1)/a[i][i]); hx::prove_eq_vec("inverted diagonal", hx::to_vec(*di), r2);
+        // an explicitly stored ZERO diagonal entry is replaced by the identity when inverting (the library's stated convention: is_zero(d) ? identity : inverse(d)); extraction returns it as it is
+        for (int z=0;z<p.n;++z) { SCrs Z=A; for (ptrdiff_t k=Z.ptr[z];k<Z.ptr[z+1];++k) if (Z.col[k]==z) Z.val[k]=scalar(0); auto Zm=hx::to_amgcl(Z); auto dz=be::diagonal(*Zm,false), dzi=be::diagonal(*Zm,true); std::vector<scalar> e0, e1; for (int i=0;i<p.n;++i) { e0.push_back(i==z?scalar(0):a[i][i]); e1.push_back(i==z?scalar(1):scalar(1)/a[i][i]); }
+            hx::prove_eq_vec("diagonal with a stored zero entry", hx::to_vec(*dz), e0); hx::prove_eq_vec("inverted diagonal: a stored zero entry becomes the identity", hx::to_vec(*dzi), e1); } } } }); }
 static void gershgorin_case(const Pattern &p, bool scaled) { hx::CaseOptions co; co.max_paths=80; hx::run_case(std::string("gershgorin/")+(scaled?"scaled/":"plain/")+p.name,[&]() { SCrs A=hx::symbolic_matrix(p,"a",true); auto Am=hx::to_amgcl(A); int n=p.n; if (scaled) for (int i=0;i<n;++i) hx::assume(hx::ne(A.at(i,i),scalar(0)));
     scalar r = scaled ? be::spectral_radius<true>(*Am,0) : be::spectral_radius<false>(*Am,0); Dense a=A.dense();
     std::vector<scalar> rows; for (int i=0;i<n;++i) { scalar s=0; for (ptrdiff_t k=p.ptr[i];k<p.ptr[i+1];++k) s+=hx::sabs(A.val[k]); if (scaled) s=s/hx::sabs(a[i][i]); rows.push_back(s); }
